@@ -150,5 +150,5 @@ def run(tier, replay=None):
         if not replay:
             # executor level: Exec.tla (design model, exhaustive), real sessions with a Discard in the window between
             # 'marked OK' and 'assigned', machine kills at executor events; ExecMon judges, ExecTrace validates
-            execx.run(chk, w, tier)
+            execx.run(chk, w, tier, nkill=3)
         return chk.finish()
